@@ -341,7 +341,10 @@ def translate_stages(tree):
             out.append("dtypeName")   # the extraction moved into a module-level helper
         elif isinstance(st, ast.If) and _src(st.test) == "cls.dtypes is not _any_dtype":
             rets = [n for n in ast.walk(st) if isinstance(n, ast.Return)]
-            guarded = [n for n in ast.walk(st) if isinstance(n, ast.If) and _src(n.test) == "not in_dtypes"]
+            guarded = [n for n in ast.walk(st) if isinstance(n, ast.If) and (_src(n.test) == "not in_dtypes" or (
+                isinstance(n.test, ast.UnaryOp) and isinstance(n.test.op, ast.Not) and isinstance(n.test.operand, ast.Call) and isinstance(n.test.operand.func, ast.Name)
+                and n.test.operand.func.id in helpers and sorted(_src(a) for a in n.test.operand.args) == ["cls.dtypes", "dtype"]
+                and not any(isinstance(m, ast.Call) and _src(m.func) in ("set_shape_memo", "get_shape_memo") for m in ast.walk(helpers[n.test.operand.func.id]))))]
             ok = bool(rets) and all(_is_message_return(r) for r in rets) and len(guarded) == 1 and not st.orelse
             out.append("dtypeTest" if ok else "unknown")
         elif isinstance(st, ast.If) and isinstance(st.test, ast.BoolOp) and isinstance(st.test.op, ast.And) and len(st.test.values) == 2 \
@@ -392,6 +395,11 @@ def translate_stages(tree):
                   and any(isinstance(n, ast.Raise) and n.exc is None for n in st.handlers[0].body)
                   and any(isinstance(n, ast.Expr) and _src(n.value).startswith("set_shape_memo(") for n in st.handlers[0].body))
             out.append("walk" if ok else "unknown")
+        elif isinstance(st, ast.If) and _src(st.test) == "check == ''" and [_src(x) for x in st.body] == ["return check"] and not st.orelse \
+                and i + 3 == len(body) and _src(body[i + 1]).startswith("set_shape_memo(") and _src(body[i + 2]) == "return check":
+            # `if check == "": return check` / `set_shape_memo(<backups>)` / `return check`
+            out.append("finish")
+            i += 2
         elif isinstance(st, ast.If) and _src(st.test) == "check == ''":
             ok = (len(st.body) == 1 and _src(st.body[0]) == "return check" and len(st.orelse) == 2
                   and _src(st.orelse[0]).startswith("set_shape_memo(") and _src(st.orelse[1]) == "return check")
